@@ -8,6 +8,7 @@ import (
 	"go/ast"
 	"go/parser"
 	"go/token"
+	"math/big"
 	"os"
 	"path/filepath"
 	"sort"
@@ -115,6 +116,8 @@ type unit struct {
 	Dir      string
 	Imports  map[string]string // local package name -> directory relative to repo
 	Structs  []*structInfo
+	Consts   map[string]ast.Expr // package-level constants of the file
+	UsesRT   bool                // some function uses the runtime's allocation policy (alloc_cap)
 	Abs      []*absIface
 	Funcs    []*funcInfo // translated, in emission order
 	Skipped  [][2]string
@@ -304,6 +307,9 @@ func (t *translator) coqType(x ty, from *unit) string {
 	case kBool:
 		return "bool"
 	case kSlice:
+		if from != nil && from.Spec.CapSlices {
+			return "GoSlice.slice"
+		}
 		return "(Datatypes.list Z)"
 	case kStruct:
 		if x.S.Unit != from {
@@ -350,6 +356,135 @@ func zero(x ty) (string, bool) {
 	}
 	return "", false
 }
+
+func (f *fx) zeroOf(x ty) (string, bool) {
+	if x.K == kSlice && f.u.Spec.CapSlices {
+		return "GoSlice.sl_nil", true
+	}
+	return zero(x)
+}
+
+func (f *fx) capMode() bool { return f.u.Spec.CapSlices }
+
+func (f *fx) slLen(a string) string {
+	if f.capMode() {
+		return "(GoSlice.sl_len " + a + ")"
+	}
+	return "(Z.of_nat (Datatypes.length " + a + "))"
+}
+
+func (f *fx) slGet(a, i string) string {
+	if f.capMode() {
+		return "(GoSlice.sl_get " + a + " " + i + ")"
+	}
+	return "(ListAux.get " + a + " (Z.to_nat " + i + "))"
+}
+
+func (f *fx) slSet(a, i, v string) string {
+	if f.capMode() {
+		return "(GoSlice.sl_set " + a + " " + i + " " + v + ")"
+	}
+	return "(ListAux.set " + a + " (Z.to_nat " + i + ") " + v + ")"
+}
+
+// ---------------------------------------------------------------- floating point: dyadic constants only
+
+// a float32 expression whose value is num / 2^k exactly (as long as the ints involved are below 2^24 in
+// magnitude, where float32 is exact); num is a Gallina Z term
+type fval struct {
+	num   string
+	k     uint
+	konst *big.Rat // non-nil: a compile-time constant
+}
+
+func isPow2(x *big.Int) (uint, bool) {
+	if x.Sign() <= 0 {
+		return 0, false
+	}
+	n := uint(x.BitLen() - 1)
+	return n, new(big.Int).Lsh(big.NewInt(1), n).Cmp(x) == 0
+}
+
+func (f *fx) fconst(r *big.Rat, at token.Pos) fval {
+	k, ok := isPow2(r.Denom())
+	if !ok || k > 20 || r.Num().BitLen() > 24 {
+		f.bad(at, "floating-point constant %s that is not a small dyadic rational (exactly representable in float32)", r.RatString())
+	}
+	return fval{num: r.Num().String(), k: k, konst: r}
+}
+
+func (f *fx) isFloatExpr(x ast.Expr, e env) bool {
+	switch n := x.(type) {
+	case *ast.ParenExpr:
+		return f.isFloatExpr(n.X, e)
+	case *ast.BasicLit:
+		return n.Kind == token.FLOAT
+	case *ast.Ident:
+		if _, local := e.vars[n.Name]; local {
+			return false
+		}
+		if c, ok := f.u.Consts[n.Name]; ok {
+			return f.isFloatExpr(c, env{})
+		}
+	case *ast.CallExpr:
+		if id, ok := n.Fun.(*ast.Ident); ok && (id.Name == "float32" || id.Name == "float64") {
+			_, shadow := e.vars[id.Name]
+			return !shadow
+		}
+	case *ast.BinaryExpr:
+		return n.Op == token.MUL && (f.isFloatExpr(n.X, e) || f.isFloatExpr(n.Y, e))
+	}
+	return false
+}
+
+func (f *fx) fexpr(x ast.Expr, e env) fval {
+	switch n := x.(type) {
+	case *ast.ParenExpr:
+		return f.fexpr(n.X, e)
+	case *ast.BasicLit:
+		if n.Kind == token.FLOAT || n.Kind == token.INT {
+			r, ok := new(big.Rat).SetString(n.Value)
+			if !ok {
+				f.bad(n.Pos(), "numeric literal %s", n.Value)
+			}
+			return f.fconst(r, n.Pos())
+		}
+	case *ast.Ident:
+		if _, local := e.vars[n.Name]; !local {
+			if c, ok := f.u.Consts[n.Name]; ok {
+				return f.fexpr(c, env{vars: map[string]varInfo{}})
+			}
+		}
+	case *ast.CallExpr:
+		if id, ok := n.Fun.(*ast.Ident); ok && (id.Name == "float32" || id.Name == "float64") && len(n.Args) == 1 {
+			if f.isFloatExpr(n.Args[0], e) {
+				return f.fexpr(n.Args[0], e)
+			}
+			if lit, ok := n.Args[0].(*ast.BasicLit); ok && lit.Kind == token.INT {
+				return f.fexpr(lit, e)
+			}
+			s, ts := f.expr(n.Args[0], e)
+			f.want(n.Args[0], ts, kInt)
+			return fval{num: s}
+		}
+	case *ast.BinaryExpr:
+		if n.Op == token.MUL {
+			a, b := f.fexpr(n.X, e), f.fexpr(n.Y, e)
+			if a.konst == nil && b.konst == nil {
+				f.bad(n.Pos(), "product of two non-constant floating-point values (rounding is not modelled)")
+			}
+			r := fval{num: "(" + a.num + " * " + b.num + ")", k: a.k + b.k}
+			if a.konst != nil && b.konst != nil {
+				return f.fconst(new(big.Rat).Mul(a.konst, b.konst), n.Pos())
+			}
+			return r
+		}
+	}
+	f.bad(x.Pos(), "floating-point expression other than <dyadic constant> * float32(<int>)")
+	return fval{}
+}
+
+func pow2(k uint) string { return new(big.Int).Lsh(big.NewInt(1), k).String() }
 
 // ---------------------------------------------------------------- type resolution
 
@@ -420,6 +555,8 @@ func (t *translator) resolveType(e ast.Expr, c tctx) ty {
 		return r
 	case *ast.ParenExpr:
 		return t.resolveType(x.X, c)
+	case *ast.Ellipsis: // variadic parameter: a slice
+		return t.resolveType(&ast.ArrayType{Lbrack: x.Pos(), Elt: x.Elt}, c)
 	}
 	t.unsupported(e.Pos(), "type expression %T", e)
 	return ty{}
@@ -649,7 +786,49 @@ func (f *fx) expr(x ast.Expr, e env) (string, ty) {
 		f.bad(n.Pos(), "unary operator %s", n.Op)
 	case *ast.CompositeLit:
 		return f.composite(n, e)
+	case *ast.SliceExpr:
+		if !f.capMode() {
+			f.bad(n.Pos(), "slice expression (only in capacity-aware units)")
+		}
+		if n.Low != nil || n.Slice3 || n.High == nil {
+			f.bad(n.Pos(), "slice expression other than s[:n]")
+		}
+		a, ta := f.expr(n.X, e)
+		if ta.K != kSlice {
+			f.bad(n.Pos(), "reslicing something that is not a slice")
+		}
+		h, th := f.expr(n.High, e)
+		f.want(n.High, th, kInt)
+		return "(GoSlice.sl_reslice " + a + " " + h + ")", ta
 	case *ast.BinaryExpr:
+		if f.isFloatExpr(n.X, e) || f.isFloatExpr(n.Y, e) {
+			a, b := f.fexpr(n.X, e), f.fexpr(n.Y, e)
+			if a.konst != nil && b.konst != nil {
+				c := a.konst.Cmp(b.konst)
+				var r bool
+				switch n.Op {
+				case token.EQL:
+					r = c == 0
+				case token.NEQ:
+					r = c != 0
+				case token.LSS:
+					r = c < 0
+				case token.LEQ:
+					r = c <= 0
+				case token.GTR:
+					r = c > 0
+				case token.GEQ:
+					r = c >= 0
+				default:
+					f.bad(n.Pos(), "floating-point operator %s", n.Op)
+				}
+				if r {
+					return "true", ty{K: kBool}
+				}
+				return "false", ty{K: kBool}
+			}
+			f.bad(n.Pos(), "comparison of non-constant floating-point values")
+		}
 		a, ta := f.expr(n.X, e)
 		b, tb := f.expr(n.Y, e)
 		arith := func(op string) (string, ty) {
@@ -718,7 +897,7 @@ func (f *fx) expr(x ast.Expr, e env) (string, ty) {
 		}
 		i, ti := f.expr(n.Index, e)
 		f.want(n.Index, ti, kInt)
-		return "(ListAux.get " + a + " (Z.to_nat " + i + "))", ty{K: kElem}
+		return f.slGet(a, i), ty{K: kElem}
 	case *ast.CallExpr:
 		s, rs, info := f.call(n, e)
 		if info != nil && info.Writes {
@@ -808,7 +987,7 @@ func (f *fx) composite(cl *ast.CompositeLit, e env) (string, ty) {
 		}
 		v, ok := given[fl.Name]
 		if !ok {
-			z, okz := zero(fl.Ty)
+			z, okz := f.zeroOf(fl.Ty)
 			if !okz {
 				f.bad(cl.Pos(), "field %s left to its zero value, which is a nil pointer", fl.Name)
 			}
@@ -824,6 +1003,9 @@ func (f *fx) composite(cl *ast.CompositeLit, e env) (string, ty) {
 
 // slices are values in the translation: only fresh slices may be stored
 func (f *fx) sliceFresh(rhs ast.Expr) {
+	if f.capMode() {
+		return // aliasing is out of scope in capacity-aware units (see README)
+	}
 	if c, ok := rhs.(*ast.CallExpr); ok {
 		if id, ok := c.Fun.(*ast.Ident); ok && id.Name == "make" {
 			return
@@ -833,7 +1015,78 @@ func (f *fx) sliceFresh(rhs ast.Expr) {
 }
 
 // call: returns the Gallina application, the Go result types and (for whitelisted functions) its info
+// the arguments from position `from` on, as one slice value: f(a, b) -> a literal, f(xs...) -> xs
+func (f *fx) variadicTail(c *ast.CallExpr, from int, e env) string {
+	if c.Ellipsis != token.NoPos {
+		if len(c.Args) != from+1 {
+			f.bad(c.Pos(), "f(..., xs...) with extra arguments")
+		}
+		s, ts := f.expr(c.Args[from], e)
+		if ts.K != kSlice {
+			f.bad(c.Pos(), "xs... of something that is not a slice")
+		}
+		return s
+	}
+	var els []string
+	for _, a := range c.Args[from:] {
+		as, ta := f.expr(a, e)
+		if ta.K != kElem && ta.K != kInt {
+			f.bad(a.Pos(), "variadic argument that is not T / int")
+		}
+		els = append(els, as)
+	}
+	return f.sliceLit(els)
+}
+
+// package slices (capacity-aware units only)
+func (f *fx) slicesCall(c *ast.CallExpr, name string, e env) (string, []ty, *funcInfo) {
+	if !f.capMode() {
+		f.bad(c.Pos(), "slices.%s (only in capacity-aware units)", name)
+	}
+	arg := func(i int, k kind) string {
+		if i >= len(c.Args) {
+			f.bad(c.Pos(), "slices.%s with too few arguments", name)
+		}
+		s, ts := f.expr(c.Args[i], e)
+		if ts.K != k && !(k == kElem && ts.K == kInt) {
+			f.bad(c.Args[i].Pos(), "argument of unexpected type")
+		}
+		return s
+	}
+	nargs := func(n int) {
+		if len(c.Args) != n || c.Ellipsis != token.NoPos {
+			f.bad(c.Pos(), "slices.%s with an unexpected argument list", name)
+		}
+	}
+	switch name {
+	case "Delete":
+		nargs(3)
+		return "(GoSlice.sl_delete " + arg(0, kSlice) + " " + arg(1, kInt) + " " + arg(2, kInt) + ")", []ty{{K: kSlice}}, nil
+	case "Insert":
+		f.u.UsesRT = true
+		return "(GoSlice.sl_insert alloc_cap " + arg(0, kSlice) + " " + arg(1, kInt) + " " + f.variadicTail(c, 2, e) + ")", []ty{{K: kSlice}}, nil
+	case "Contains":
+		nargs(2)
+		return "(GoSlice.sl_contains " + arg(0, kSlice) + " " + arg(1, kElem) + ")", []ty{{K: kBool}}, nil
+	case "Index":
+		nargs(2)
+		return "(GoSlice.sl_index " + arg(0, kSlice) + " " + arg(1, kElem) + ")", []ty{{K: kInt}}, nil
+	case "Clone":
+		nargs(1)
+		f.u.UsesRT = true
+		return "(GoSlice.sl_clone alloc_cap " + arg(0, kSlice) + ")", []ty{{K: kSlice}}, nil
+	}
+	f.bad(c.Pos(), "slices.%s (supported: Delete, Insert, Contains, Index, Clone)", name)
+	return "", nil, nil
+}
+
 func (f *fx) sliceLit(els []string) string {
+	if f.capMode() {
+		if len(els) == 0 {
+			return "GoSlice.sl_nil"
+		}
+		return "(GoSlice.sl_of_list [" + strings.Join(els, "; ") + "])"
+	}
 	if len(els) == 0 {
 		return "(@Datatypes.nil Z)"
 	}
@@ -842,7 +1095,7 @@ func (f *fx) sliceLit(els []string) string {
 
 func (f *fx) call(c *ast.CallExpr, e env) (string, []ty, *funcInfo) {
 	if _, isSel := c.Fun.(*ast.SelectorExpr); c.Ellipsis != token.NoPos && !isSel {
-		if id, ok := c.Fun.(*ast.Ident); !ok || f.t.findFunc(f.u.Dir, id.Name, f.u) == nil {
+		if id, ok := c.Fun.(*ast.Ident); !ok || (f.t.findFunc(f.u.Dir, id.Name, f.u) == nil && !(id.Name == "append" && f.capMode())) {
 			f.bad(c.Pos(), "variadic call f(xs...) of something that is not a whitelisted function")
 		}
 	}
@@ -858,7 +1111,38 @@ func (f *fx) call(c *ast.CallExpr, e env) (string, []ty, *funcInfo) {
 				if ta.K != kSlice {
 					f.bad(c.Pos(), "len of something that is not a slice")
 				}
-				return "(Z.of_nat (Datatypes.length " + a + "))", []ty{{K: kInt}}, nil
+				return f.slLen(a), []ty{{K: kInt}}, nil
+			}
+		case "cap":
+			if _, shadow := e.vars["cap"]; !shadow && f.capMode() {
+				if len(c.Args) != 1 {
+					f.bad(c.Pos(), "cap with %d arguments", len(c.Args))
+				}
+				a, ta := f.expr(c.Args[0], e)
+				if ta.K != kSlice {
+					f.bad(c.Pos(), "cap of something that is not a slice")
+				}
+				return "(GoSlice.sl_cap " + a + ")", []ty{{K: kInt}}, nil
+			}
+		case "int":
+			if _, shadow := e.vars["int"]; !shadow && len(c.Args) == 1 && f.isFloatExpr(c.Args[0], e) {
+				v := f.fexpr(c.Args[0], e) // int(x) truncates toward zero
+				if v.k == 0 {
+					return v.num, []ty{{K: kInt}}, nil
+				}
+				return "(Z.quot " + v.num + " " + pow2(v.k) + ")", []ty{{K: kInt}}, nil
+			}
+		case "append":
+			if _, shadow := e.vars["append"]; !shadow && f.capMode() {
+				if len(c.Args) < 1 {
+					f.bad(c.Pos(), "append without arguments")
+				}
+				a, ta := f.expr(c.Args[0], e)
+				if ta.K != kSlice {
+					f.bad(c.Pos(), "append to something that is not a slice")
+				}
+				f.u.UsesRT = true
+				return "(GoSlice.sl_append alloc_cap " + a + " " + f.variadicTail(c, 1, e) + ")", []ty{{K: kSlice}}, nil
 			}
 		case "make":
 			if _, shadow := e.vars["make"]; !shadow {
@@ -871,9 +1155,14 @@ func (f *fx) call(c *ast.CallExpr, e env) (string, []ty, *funcInfo) {
 				}
 				n, tn := f.expr(c.Args[1], e)
 				f.want(c.Args[1], tn, kInt)
+				cp := n
 				if len(c.Args) == 3 { // the capacity has no observable effect without append; it must still be a pure int expression
-					_, tc := f.expr(c.Args[2], e)
+					var tc ty
+					cp, tc = f.expr(c.Args[2], e)
 					f.want(c.Args[2], tc, kInt)
+				}
+				if f.capMode() {
+					return "(GoSlice.sl_make " + n + " " + cp + ")", []ty{{K: kSlice}}, nil
 				}
 				return "(List.repeat 0 (Z.to_nat " + n + "))", []ty{{K: kSlice}}, nil
 			}
@@ -897,6 +1186,11 @@ func (f *fx) call(c *ast.CallExpr, e env) (string, []ty, *funcInfo) {
 		}
 		f.bad(c.Pos(), "call of %s (not a whitelisted function, len, make or a function-typed parameter)", fn.Name)
 	case *ast.SelectorExpr:
+		if id, ok := fn.X.(*ast.Ident); ok && id.Name == "slices" && f.u.Imports["slices"] == "<std>/slices" {
+			if _, shadow := e.vars["slices"]; !shadow {
+				return f.slicesCall(c, fn.Sel.Name, e)
+			}
+		}
 		rs, tr := f.expr(fn.X, e)
 		if tr.K == kAbs {
 			info := f.t.absMethod(tr.A, fn.Sel.Name, c.Pos())
@@ -1062,13 +1356,13 @@ func (f *fx) assign(lhs ast.Expr, val string, tv ty, define bool, e env) (string
 				f.bad(l.Pos(), "indexed assignment to %s, which is not a slice variable", b.Name)
 			}
 			f.rebind(b.Name, e)
-			return "let " + vname(b.Name) + " := ListAux.set " + vname(b.Name) + " (Z.to_nat " + i + ") " + val + " in\n", e
+			return "let " + vname(b.Name) + " := " + f.slSet(vname(b.Name), i, val) + " in\n", e
 		case *ast.SelectorExpr:
 			cur, tc := f.selector(b, e)
 			if tc.K != kSlice {
 				f.bad(l.Pos(), "indexed assignment to a field that is not a slice")
 			}
-			return f.assign(b, "(ListAux.set "+cur+" (Z.to_nat "+i+") "+val+")", tc, false, e)
+			return f.assign(b, f.slSet(cur, i, val), tc, false, e)
 		}
 		f.bad(l.Pos(), "indexed assignment target")
 	}
@@ -1191,8 +1485,8 @@ func (f *fx) stmts(ss []ast.Stmt, e env, k cont, top bool) string {
 				f.bad(vs.Pos(), "var declaration with initialiser or without type")
 			}
 			t := f.t.resolveType(vs.Type, tctx{f.u, f.fi.TypeParms})
-			z, okz := zero(t)
-			if !okz || t.K == kSlice {
+			z, okz := f.zeroOf(t)
+			if !okz || (t.K == kSlice && !f.capMode()) {
 				f.bad(vs.Pos(), "var of a type without a modelled zero value")
 			}
 			for _, nm := range vs.Names {
@@ -1216,6 +1510,11 @@ func (f *fx) stmts(ss []ast.Stmt, e env, k cont, top bool) string {
 		if !ok {
 			f.bad(n.Pos(), "expression statement that is not a call")
 		}
+		if id, isId := c.Fun.(*ast.Ident); isId && f.capMode() && (id.Name == "copy" || id.Name == "clear") {
+			if _, shadow := e.vars[id.Name]; !shadow {
+				return f.builtinStmt(c, id.Name, e, next)
+			}
+		}
 		if id, isId := c.Fun.(*ast.Ident); isId && id.Name == "panic" {
 			if !f.fi.Partial {
 				f.bad(n.Pos(), "internal: panic in a function not marked partial")
@@ -1232,8 +1531,52 @@ func (f *fx) stmts(ss []ast.Stmt, e env, k cont, top bool) string {
 		return f.ifStmt(n, e, next)
 	case *ast.ForStmt:
 		return f.forStmt(n, rest, e, k, next, top)
+	case *ast.RangeStmt:
+		return f.rangeStmt(n, rest, e, k, next, top)
 	}
 	f.bad(s.Pos(), "statement %T", s)
+	return ""
+}
+
+// copy(dst, src) and clear(s) / clear(s[:n]) as statements (capacity-aware units)
+func (f *fx) builtinStmt(c *ast.CallExpr, name string, e env, next cont) string {
+	switch name {
+	case "copy":
+		if len(c.Args) != 2 {
+			f.bad(c.Pos(), "copy with %d arguments", len(c.Args))
+		}
+		d, td := f.expr(c.Args[0], e)
+		s, ts := f.expr(c.Args[1], e)
+		if td.K != kSlice || ts.K != kSlice {
+			f.bad(c.Pos(), "copy of something that is not a slice")
+		}
+		p, e2 := f.assign(c.Args[0], "(GoSlice.sl_copy "+d+" "+s+")", td, false, e)
+		return p + next(e2)
+	case "clear":
+		if len(c.Args) != 1 {
+			f.bad(c.Pos(), "clear with %d arguments", len(c.Args))
+		}
+		target := c.Args[0]
+		var upto string
+		if se, ok := target.(*ast.SliceExpr); ok { // clear(s[:n]) zeroes the first n slots of s's backing array
+			if se.Low != nil || se.Slice3 || se.High == nil {
+				f.bad(c.Pos(), "clear of a slice expression other than s[:n]")
+			}
+			h, th := f.expr(se.High, e)
+			f.want(se.High, th, kInt)
+			target, upto = se.X, h
+		}
+		s, ts := f.expr(target, e)
+		if ts.K != kSlice {
+			f.bad(c.Pos(), "clear of something that is not a slice")
+		}
+		if upto == "" {
+			upto = f.slLen(s)
+		}
+		p, e2 := f.assign(target, "(GoSlice.sl_clear_upto "+s+" "+upto+")", ts, false, e)
+		return p + next(e2)
+	}
+	f.bad(c.Pos(), "builtin %s", name)
 	return ""
 }
 
@@ -1382,8 +1725,10 @@ func (f *fx) ret(n *ast.ReturnStmt, e env) string {
 }
 
 func (f *fx) ifStmt(n *ast.IfStmt, e env, next cont) string {
-	if n.Init != nil {
-		f.bad(n.Pos(), "if statement with an initialiser")
+	if n.Init != nil { // if init; cond {...}  ==  { init; if cond {...} }
+		plain := *n
+		plain.Init = nil
+		return f.stmts([]ast.Stmt{&ast.BlockStmt{Lbrace: n.Pos(), List: []ast.Stmt{n.Init, &plain}, Rbrace: n.End()}}, e, next, false)
 	}
 	c, tc := f.expr(n.Cond, e)
 	f.want(n.Cond, tc, kBool)
@@ -1573,6 +1918,112 @@ func (f *fx) forStmt(n *ast.ForStmt, rest []ast.Stmt, e env, k cont, next cont, 
 	return ""
 }
 
+// for i, x := range xs { body }: i runs over 0 .. len(xs)-1 (length read once), x = xs[i] at the start of
+// the iteration.  Without return in the body: a fold; with return (top level only): a structural
+// Fixpoint over the index list whose nil case is the rest of the function.
+func (f *fx) rangeStmt(n *ast.RangeStmt, rest []ast.Stmt, e env, k cont, next cont, top bool) string {
+	ast.Inspect(n.Body, func(x ast.Node) bool {
+		switch y := x.(type) {
+		case *ast.BranchStmt:
+			f.bad(y.Pos(), "%s inside a loop", y.Tok)
+		case *ast.ForStmt, *ast.RangeStmt:
+			f.bad(y.Pos(), "nested loop")
+		}
+		return true
+	})
+	if (n.Key != nil || n.Value != nil) && n.Tok != token.DEFINE {
+		f.bad(n.Pos(), "range loop assigning to existing variables")
+	}
+	name := func(x ast.Expr) string {
+		if x == nil {
+			return ""
+		}
+		id, ok := x.(*ast.Ident)
+		if !ok {
+			f.bad(x.Pos(), "range variable that is not an identifier")
+		}
+		if id.Name == "_" {
+			return ""
+		}
+		if _, exists := e.vars[id.Name]; exists {
+			f.bad(x.Pos(), "range variable %s shadows an outer variable", id.Name)
+		}
+		return id.Name
+	}
+	key, val := name(n.Key), name(n.Value)
+	xs, tx := f.expr(n.X, e)
+	if tx.K != kSlice {
+		f.bad(n.X.Pos(), "range over something that is not a slice")
+	}
+	f.nloop++
+	idx := "ri" + strconv.Itoa(f.nloop)
+	ein := e.deeper()
+	if key != "" {
+		idx = vname(key)
+		ein = ein.with(key, ty{K: kInt})
+	}
+	pre := ""
+	if val != "" {
+		ein = ein.with(val, ty{K: kElem})
+		pre = "let " + vname(val) + " := " + f.slGet(xs, idx) + " in\n"
+	}
+	ein = env{vars: ein.vars, depth: ein.depth + 1}
+	indices := "(List.map Z.of_nat (List.seq 0 (Z.to_nat " + f.slLen(xs) + ")))"
+	body := func(kk cont) string { return f.stmts(n.Body.List, ein, kk, false) }
+	ms := f.assignedBy(e, func() { body(func(env) string { return "" }) })
+	rv := readVars(n.X)
+	for _, m := range ms {
+		if rv[m] {
+			f.bad(n.Pos(), "the loop body modifies %s, which the ranged expression reads", m)
+		}
+	}
+	lv := &rebindLog{threshold: ein.depth, names: map[string]bool{}}
+	f.logs = append(f.logs, lv)
+	f.dry++
+	body(func(env) string { return "" })
+	f.dry--
+	f.logs = f.logs[:len(f.logs)-1]
+	if (key != "" && lv.names[key]) || (val != "" && lv.names[val]) {
+		f.bad(n.Pos(), "loop body assigns a range variable")
+	}
+	if !hasExit(n.Body) {
+		if len(ms) == 0 {
+			f.bad(n.Pos(), "range loop without any effect on variables or fields")
+		}
+		b := body(func(env) string { return tuple(ms) })
+		for _, m := range ms {
+			f.rebind(m, e)
+		}
+		binder := vname(ms[0])
+		if len(ms) > 1 {
+			binder = "'" + tuple(ms)
+		}
+		return "let " + letPat(ms) + " :=\n  List.fold_left (fun " + binder + " (" + idx + " : Z) =>\n" + pre + b +
+			")\n  " + indices + " " + tuple(ms) + " in\n" + next(e)
+	}
+	if !top {
+		f.bad(n.Pos(), "range loop with a return that is not at the top level of the function body")
+	}
+	fname := f.fi.Coq + "_loop" + strconv.Itoa(f.nloop)
+	vars := e.ordered()
+	var binders, args []string
+	for _, v := range vars {
+		vi := e.vars[v]
+		nm := strings.TrimSuffix(v, "@container")
+		binders = append(binders, "("+vname(nm)+" : "+f.t.coqType(vi.ty, f.u)+")")
+		args = append(args, vname(nm))
+	}
+	recur := "(" + fname + " idx' " + strings.Join(args, " ") + ")"
+	exit := f.stmts(rest, e, k, false)
+	b := body(func(env) string { return recur })
+	def := "Fixpoint " + fname + " (idx : Datatypes.list Z) " + strings.Join(binders, " ") + " {struct idx} : " + f.retType() + " :=\n" +
+		"match idx with\n| Datatypes.nil => (" + exit + ")\n| Datatypes.cons " + idx + " idx' =>\n" + pre + "(" + b + ")\nend.\n"
+	if f.dry == 0 {
+		f.aux = append(f.aux, def)
+	}
+	return "(" + fname + " " + indices + " " + strings.Join(args, " ") + ")"
+}
+
 func (f *fx) retType() string {
 	var rs []ty
 	for _, r := range f.fi.Results {
@@ -1633,7 +2084,7 @@ func (t *translator) translateFunc(fi *funcInfo) {
 	pre := ""
 	for _, r := range fi.Results {
 		if r.Name != "" && r.Name != "_" {
-			z, ok := zero(r.Ty)
+			z, ok := f.zeroOf(r.Ty)
 			if !ok {
 				t.unsupported(fi.Decl.Pos(), "named result %s without a modelled zero value", r.Name)
 			}
